@@ -3,7 +3,7 @@
      config      = (kind 0 mem / 1 persistent, capacity, block_on_overflow 0/1, wait_for_result 0/1)
      label       = (tag, a, b)   tag 0 Offer(p=a, size=b) 1 SelTok a 2 SelCtx a 3 RelockTok a 4 RelockCtx a
                                      5 Cancel a 6 Read 7 Done(id=a, err class=b) 8 Result a 9 AwaitCtx a 10 Shutdown
-                                     11 Pick(object a) 12 Obj(request a carries object b)
+                                     11 Pick(object a) 12 Obj(request a carries object b) 13 Broadcast (cond API)
      observation = (result code, Size(), cond.waiting, len(cond.ch)); a negative component means
                    "not observed after this label" (intermediate step of a free-running thread). *)
 From Verif Require Import Common.Base C02.Model.
@@ -36,6 +36,7 @@ Definition label_of (z : zlab) : option label :=
   | 10 => Some LShutdown
   | 11 => Some (LPick p)
   | 12 => if b <? 0 then None else Some (LObj p (Z.to_nat b))
+  | 13 => Some LBroadcast
   | _ => None
   end.
 
